@@ -492,10 +492,12 @@ def rule_trim(ctx, rep, rid="R-C09-trim"):
                  floor=150, floor_what="grammar functions scanned")
     from rules.c08 import derives_from_token_text
     n = 0
+    # helpers of the grammar: functions of the parser crate that grammar actions call (wherever they are written); the function that turns
+    # peg's ParseError into a diagnostic is not one of them (it escapes line breaks of the offending token for the message)
+    from_grammar = {norm(k) for k in ctx.prog.reachable_from([x for x in ctx.prog.bodies.values() if norm(x.id).startswith(GRAM)])}
     for b in sorted(ctx.prog.bodies.values(), key=lambda x: x.id):
         fn = norm(b.id)
-        helper = (not fn.startswith(GRAM)) and b.f["crate"] == "ironplc_parser" and b.f["file"].endswith("parser/src/parser.rs") \
-            and not fn.startswith("ironplc_parser::parser::parse_library")
+        helper = (not fn.startswith(GRAM)) and b.f["crate"] == "ironplc_parser" and fn in from_grammar
         if not (fn.startswith(GRAM) or helper):
             continue
         n += 1
